@@ -42,6 +42,8 @@ def main():
     ap.add_argument("--checks", default="C01,C02,C07,C10,C12,C15")
     ap.add_argument("--n", type=int)
     ap.add_argument("--skip-suite", action="store_true")
+    ap.add_argument("--base", default="HEAD", help="commit of /repo the scratch worktree starts from (with --scratch)")
+    ap.add_argument("--scratch", action="store_true", help="run the checks against the scratch worktree (SIMJS_REPO_SRC) instead of applying the patch to /repo")
     a = ap.parse_args()
     d = os.path.abspath(a.dir)
     patch = find_patch(d)
@@ -51,7 +53,7 @@ def main():
     if out.strip():
         raise SystemExit("/repo is not clean:\n" + out)
     wt = "/var/tmp/simjs-mutant-%d" % os.getpid()
-    sh("git -C /repo worktree add -q %s HEAD" % wt)
+    sh("git -C /repo worktree add -q %s %s" % (wt, a.base if a.scratch else "HEAD"))
     try:
         env = dict(os.environ, PYTHONPATH=wt + "/src", PYTHONDONTWRITEBYTECODE="1")
         if os.path.exists(demo):
@@ -67,6 +69,26 @@ def main():
         if not a.skip_suite:
             rc, out = sh("%s -m pytest -q -p no:cacheprovider -n 8 2>&1 | tail -1" % PY, cwd=wt, env=env, timeout=1800)
             report["suite"] = out.strip()
+        if a.scratch:
+            print(json.dumps(report, indent=1))
+            results = {}
+            for pid in a.checks.split(","):
+                t0 = time.time()
+                env2 = dict(os.environ, SIMJS_REPO_SRC=wt + "/src", SIMJS_NO_EVIDENCE="1")
+                env2.pop("SIMJS_CHILD", None)
+                cmd = "%s simjs/run.py check %s --tier quick%s" % (PY, pid, (" --n %d" % a.n) if a.n else "")
+                rc, out = sh(cmd, cwd=VERIF, env=env2, timeout=3600)
+                viol = [l for l in out.splitlines() if l.startswith("VIOLATION")]
+                detail = [l for l in out.splitlines() if l.startswith("  ")][:4]
+                status = "CAUGHT" if (rc == 1 and viol) else ("MISSED" if rc == 0 else "HARNESS(rc=%d)" % rc)
+                results[pid] = status
+                print("%s: %s in %.0fs  %s" % (pid, status, time.time() - t0, (viol[0] if viol else "")))
+                for l in detail:
+                    print("   " + l.strip()[:200])
+                if status.startswith("HARNESS"):
+                    print(out[-1500:])
+            print(json.dumps(results))
+            return
     finally:
         sh("git -C /repo worktree remove --force %s" % wt)
         shutil.rmtree(wt, ignore_errors=True)
